@@ -33,7 +33,9 @@ pub enum Item {
     Neg { is64: bool, dst: u8 },
     Endian { be: bool, width: u8, dst: u8 },
     Lddw { dst: u8, val: u64 },
-    Mem { region: MemRegion, op: MemOp, size: u8, reg: u8, tmp: u8, pos: u16, split: i16 },
+    /// `oob` > 0: the access ends that many bytes past the end of the region (packet / metadata
+    /// only): the interpreter must return an error, the compiled engines are not run
+    Mem { region: MemRegion, op: MemOp, size: u8, reg: u8, tmp: u8, pos: u16, split: i16, oob: u8 },
     LdAbs { size: u8, pos: u16 },
     LdInd { size: u8, src: u8, pos: u16, split: u16 },
     If { cond: u8, is64: bool, dst: u8, src: Src, body: Vec<Item>, els: Vec<Item> },
@@ -122,8 +124,8 @@ fn leaf(allow_calls: bool, nfuncs: usize, allow_pkt: bool) -> BoxedStrategy<Item
     } else {
         Just(MemRegion::Stack).boxed()
     };
-    let mem = (region, memop, size(), reg(), reg(), any::<u16>(), prop_oneof![2 => Just(0i16), 2 => any::<i16>(), 1 => -200i16..200])
-        .prop_map(|(region, op, size, reg, tmp, pos, split)| Item::Mem { region, op, size, reg, tmp, pos, split });
+    let mem = (region, memop, size(), reg(), reg(), any::<u16>(), prop_oneof![2 => Just(0i16), 2 => any::<i16>(), 1 => -200i16..200], prop_oneof![150 => Just(0u8), 1 => 1u8..9])
+        .prop_map(|(region, op, size, reg, tmp, pos, split, oob)| Item::Mem { region, op, size, reg, tmp, pos, split, oob });
     let ldabs = (size(), any::<u16>()).prop_map(|(size, pos)| Item::LdAbs { size, pos });
     let ldind = (size(), reg(), any::<u16>(), any::<u16>()).prop_map(|(size, src, pos, split)| Item::LdInd { size, src, pos, split });
     let helper = (any::<u8>(), [src(), src(), src(), src(), src()], [interesting_i32(), interesting_i32(), interesting_i32(), interesting_i32(), interesting_i32()])
@@ -354,7 +356,7 @@ impl<'a> Lower<'a> {
                 self.emit(Insn::new(LDDW, *dst, 0, 0, *val as u32 as i32));
                 self.emit(Insn::new(0, 0, 0, 0, (*val >> 32) as u32 as i32));
             }
-            Item::Mem { region, op, size, reg, tmp, pos, split } => {
+            Item::Mem { region, op, size, reg, tmp, pos, split, oob } => {
                 let n = *size as usize;
                 let (tmp, mut reg) = (*tmp, *reg);
                 if matches!(op, MemOp::StoreReg | MemOp::Xadd) && reg == tmp {
@@ -370,6 +372,9 @@ impl<'a> Lower<'a> {
                     return;
                 }
                 let mut o = lo + ((*pos as usize * (len - lo - n + 1)) >> 16);
+                if *oob > 0 && *region != MemRegion::Stack && *op != MemOp::Xadd {
+                    o = len - n + *oob as usize;
+                }
                 if *op == MemOp::Xadd {
                     if n < 4 {
                         return;
